@@ -145,6 +145,13 @@ def handle (op : String) (req : Json) : R Json := do
   | "c18.gamma" =>
     let xs ← getList asRat req "xs"
     pure (jObj [("model", jRats (xs.map gammaApprox))])
+  | "c18.gamma_int" =>
+    -- integer arguments n ≥ 1 (whatever type carries them): the approximation as coded and the specification
+    -- Γ(n) = (n − 1)! (`gammaApprox_nat`: the two agree exactly)
+    let ns ← getList asNat req "ns"
+    if ns.any (· == 0) then throw "gamma_int: arguments must be positive integers"
+    pure (jObj [("model", jRats (ns.map (fun n => gammaApprox ((n : Nat) : Rat)))),
+                ("spec", jList jNat (ns.map (fun n => fact (n - 1))))])
   | "c18.axis" =>
     let kind ← getStr req "kind"
     let size ← getNat req "size"
